@@ -289,4 +289,242 @@ Section Inorder.
           rewrite <- I1, <- app_assoc. auto.
   Qed.
 
+
+  (* ---------------- Delete ---------------- *)
+
+  Lemma sm_del_absent m k : sm_contains m k = false -> sm_del m k = m.
+  Proof.
+    unfold SMap.sm_contains. induction m as [|[k' v'] m IH]; simpl; [reflexivity|].
+    destruct (cmp k k'); try discriminate; auto.
+    intros H. rewrite IH; auto.
+  Qed.
+
+  Lemma app_mid_assoc {A} (P X Y Q : list A) a : P ++ X ++ a :: Y ++ Q = P ++ (X ++ a :: Y) ++ Q.
+  Proof. rewrite <- (app_assoc X). reflexivity. Qed.
+
+  Lemma inorder_last id (kvs : list (K * V)) (A : list node) x :
+    length kvs = length A ->
+    inorder (Node id kvs (A ++ [x])) = ileft (map inorder A) kvs ++ inorder x.
+  Proof.
+    intros H. rewrite <- (app_nil_r kvs) at 1. rewrite inorder_one by auto.
+    cbn [map iright]. rewrite app_nil_r. reflexivity.
+  Qed.
+
+  Lemma rotl_inorder d (c r : node) (s : K * V) :
+    shaped d c -> shaped d r -> 1 <= nkeys r ->
+    inorder (rotl_child c r s) ++ nth 0 (nkvs r) kvzero :: inorder (rotl_sib r) =
+    inorder c ++ s :: inorder r.
+  Proof.
+    destruct c as [ci ck cc], r as [ri rk rc]. unfold rotl_child, rotl_sib. nk.
+    intros Hc Hr Hn. destruct rk as [|r0 rk]; [simpl in Hn; lia|].
+    cbn [nth]. change (skipn 1 (r0 :: rk)) with rk.
+    destruct d as [|d].
+    - apply shaped_0_inv in Hc. apply shaped_0_inv in Hr.
+      destruct Hc as [_ ->], Hr as [_ ->]. rewrite firstn_nil, skipn_nil. cbn [app].
+      rewrite !inorder_leaf, <- app_assoc. reflexivity.
+    - apply shaped_S_inv in Hc. apply shaped_S_inv in Hr.
+      destruct Hc as (_ & Hcc & _), Hr as (_ & Hrc & _). cbn [length] in Hrc.
+      destruct rc as [|rc0 rc]; [discriminate|]. cbn [length] in Hrc.
+      change (firstn 1 (rc0 :: rc)) with [rc0]. change (skipn 1 (rc0 :: rc)) with rc.
+      rewrite (inorder_internal ci _ (cc ++ [rc0])) by (destruct cc; discriminate).
+      rewrite (inorder_internal ri rk rc) by (destruct rc; [discriminate|discriminate]).
+      rewrite (inorder_internal ci ck cc) by (destruct cc; [discriminate|discriminate]).
+      rewrite (inorder_internal ri (r0 :: rk) (rc0 :: rc)) by discriminate.
+      rewrite map_app. cbn [map].
+      rewrite interleave_two by (rewrite map_length; lia).
+      cbn [interleave]. rewrite app_nil_r, <- !app_assoc. reflexivity.
+  Qed.
+
+  Lemma rotr_inorder d (l c : node) (s : K * V) :
+    shaped d l -> shaped d c -> 1 <= nkeys l ->
+    inorder (rotr_sib l) ++ nth (pred (nkeys l)) (nkvs l) kvzero :: inorder (rotr_child l c s) =
+    inorder l ++ s :: inorder c.
+  Proof.
+    destruct c as [ci ck cc], l as [li lk lc]. unfold rotr_child, rotr_sib. nk.
+    intros Hl Hc Hn.
+    destruct (rev_case lk) as [->|(lk' & kl & ->)]; [simpl in Hn; lia|].
+    rewrite length_snoc. cbn [pred].
+    rewrite (nth_app_mid lk' [] kl _ (length lk') eq_refl).
+    rewrite (firstn_app_exact lk' [kl] (length lk') eq_refl).
+    destruct d as [|d].
+    - apply shaped_0_inv in Hc. apply shaped_0_inv in Hl.
+      destruct Hc as [_ ->], Hl as [_ ->]. rewrite firstn_nil, skipn_nil. cbn [app].
+      rewrite !inorder_leaf, <- app_assoc. reflexivity.
+    - apply shaped_S_inv in Hc. apply shaped_S_inv in Hl.
+      destruct Hc as (_ & Hcc & _), Hl as (_ & Hlc & _). rewrite length_snoc in Hlc.
+      destruct (rev_case lc) as [->|(lc' & cl & ->)]; [discriminate|].
+      rewrite length_snoc in Hlc.
+      rewrite (firstn_app_exact lc' [cl] (S (length lk')) ltac:(lia)).
+      rewrite (skipn_app_exact lc' [cl] (S (length lk')) ltac:(lia)).
+      rewrite (inorder_internal li lk' lc') by (destruct lc'; discriminate).
+      rewrite (inorder_internal ci (s :: ck) ([cl] ++ cc)) by discriminate.
+      rewrite (inorder_internal li (lk' ++ [kl]) (lc' ++ [cl])) by (destruct lc'; discriminate).
+      rewrite (inorder_internal ci ck cc) by (destruct cc; discriminate).
+      rewrite !map_app.
+      rewrite interleave_two by (rewrite map_length; lia).
+      cbn [map app interleave]. rewrite app_nil_r, <- !app_assoc. reflexivity.
+  Qed.
+
+  Lemma merged_inorder d (a b : node) (s : K * V) :
+    shaped d a -> shaped d b -> inorder (merged a b s) = inorder a ++ s :: inorder b.
+  Proof.
+    destruct a as [ai ak ac], b as [bi bk bc]. unfold merged. nk. intros Ha Hb.
+    destruct d as [|d].
+    - apply shaped_0_inv in Ha. apply shaped_0_inv in Hb.
+      destruct Ha as [_ ->], Hb as [_ ->]. reflexivity.
+    - apply shaped_S_inv in Ha. apply shaped_S_inv in Hb.
+      destruct Ha as (_ & Hac & _), Hb as (_ & Hbc & _).
+      rewrite (inorder_internal ai _ (ac ++ bc)) by (destruct ac; discriminate).
+      rewrite (inorder_internal ai ak ac) by (destruct ac; discriminate).
+      rewrite (inorder_internal bi bk bc) by (destruct bc; discriminate).
+      rewrite map_app. apply interleave_two. rewrite map_length. assumption.
+  Qed.
+
+  Lemma fix_inorder d id (kvs : list (K * V)) (A : list node) (c : node) (B : list node) :
+    length (A ++ c :: B) = S (length kvs) -> 1 <= length kvs ->
+    Forall (okc d) A -> Forall (okc d) B -> shaped d c ->
+    inorder (fix_child id kvs (A ++ c :: B) (length A)) = inorder (Node id kvs (A ++ c :: B)).
+  Proof.
+    intros Hl Hne FA FB Hc.
+    pose proof (fix_spec_holds kzero vzero minKVs id kvs A c B Hl Hne) as HS.
+    remember (fix_child id kvs (A ++ c :: B) (length A)) as x' eqn:Ex. clear Ex.
+    rewrite app_length in Hl. cbn [length] in Hl.
+    destruct HS as [Hok
+                   |KA s KB r B' Hk HB HlK Hlt Hr
+                   |KA s KB A' l Hk HA HlK Hlt Hll
+                   |KA s KB A' l Hk HA HlK Hlt Hll
+                   |s KB r B' Hk HA HB Hlt Hr].
+    - reflexivity.
+    - subst kvs B. inversion FB as [|? ? [Fr0 Fr1] FB']; subst.
+      rewrite app_length in Hl. cbn [length] in Hl.
+      rewrite !inorder_two by lia. rewrite !app_mid_assoc.
+      rewrite (rotl_inorder d c r s Hc Fr1 ltac:(lia)). reflexivity.
+    - subst kvs A. apply Forall_app in FA. destruct FA as [FA' Fl].
+      inversion Fl as [|? ? [Fl0 Fl1] _]; subst.
+      rewrite app_length in Hl. rewrite !app_length in Hl. cbn [length] in Hl.
+      rewrite <- (app_assoc A' [l]). cbn [app].
+      rewrite !inorder_two by lia. rewrite !app_mid_assoc.
+      rewrite (rotr_inorder d l c s Fl1 Hc ltac:(lia)). reflexivity.
+    - subst kvs A. apply Forall_app in FA. destruct FA as [FA' Fl].
+      inversion Fl as [|? ? [Fl0 Fl1] _]; subst.
+      rewrite app_length in Hl. rewrite !app_length in Hl. cbn [length] in Hl.
+      rewrite <- (app_assoc A' [l]). cbn [app].
+      rewrite inorder_two, inorder_one by lia. rewrite app_mid_assoc.
+      rewrite (merged_inorder d l c s Fl1 Hc). reflexivity.
+    - subst kvs A B. inversion FB as [|? ? [Fr0 Fr1] FB']; subst.
+      cbn [length app] in *.
+      pose proof (inorder_one id [] KB [] (merged c r s) B' eq_refl ltac:(lia)) as H1.
+      pose proof (inorder_two id [] KB s [] c r B' eq_refl ltac:(lia)) as H2.
+      cbn [app] in H1, H2. rewrite H1, H2.
+      rewrite (merged_inorder d c r s Hc Fr1). cbn [map ileft app].
+      rewrite <- app_assoc. reflexivity.
+  Qed.
+
+  Theorem rr_inorder d : forall x,
+      shaped d x -> 1 <= nkeys x ->
+      inorder x = inorder (fst (remove_rightmost x)) ++ [snd (remove_rightmost x)].
+  Proof.
+    induction d as [|d IH]; intros [id kvs cs] Hs Hne.
+    - apply shaped_0_inv in Hs. destruct Hs as [Hlen ->]. rewrite rr_leaf_unfold. cbn [fst snd].
+      rewrite !inorder_leaf. apply app_removelast_last. nk.
+      destruct kvs; [simpl in Hne; lia|discriminate].
+    - apply shaped_S_inv in Hs. destruct Hs as (Hlen & Hlc & F).
+      destruct (rev_case cs) as [->|(A & c & ->)]; [discriminate|].
+      rewrite length_snoc in Hlc. apply Forall_app in F. destruct F as [FA Fc].
+      inversion Fc as [|? ? [Hcm Hcs] _]; subst.
+      pose proof (IH c Hcs ltac:(lia)) as Hc.
+      pose proof (rr_shaped kzero vzero minKVs maxKVs Hmin Hmax d c Hcs ltac:(lia)) as Hsh.
+      unfold rr_shape in Hsh.
+      destruct (remove_rightmost c) as [c' kv] eqn:Er. cbn [fst snd] in Hc, Hsh.
+      destruct Hsh as [Hsh1 Hsh2].
+      rewrite (rr_internal kzero vzero minKVs id kvs A c c' kv ltac:(lia) Er). cbn [fst snd].
+      nk.
+      rewrite (fix_inorder d id kvs A c' []); auto.
+      + rewrite !inorder_last by lia. rewrite Hc, app_assoc. reflexivity.
+      + rewrite length_snoc. lia.
+  Qed.
+
+  Theorem del_inorder d : forall x k,
+      shaped d x -> (d <> 0 -> 1 <= nkeys x) -> sorted (inorder x) ->
+      inorder (fst (del x k)) = sm_del (inorder x) k /\
+      snd (del x k) = sm_contains (inorder x) k.
+  Proof.
+    induction d as [|d IH]; intros [id kvs cs] k Hs Hne Hso.
+    - apply shaped_0_inv in Hs. destruct Hs as [Hlen ->].
+      pose proof (del_spec_holds cmp kzero vzero minKVs id kvs [] k (or_introl eq_refl)) as HS.
+      remember (del (Node id kvs []) k) as res eqn:Eres. clear Eres.
+      rewrite inorder_leaf in *. unfold SMap.sm_contains.
+      destruct HS as [KA k' v' KB Hc Hk Hg He
+                     |KA KB Hc Hk Hg Hl
+                     |KA k' v' KB A c B c' kv Hk Hc
+                     |KA KB A c B c' Hk Hc
+                     |KA KB A c B c' Hk Hc];
+        try (destruct A; discriminate); cbn [fst snd]; rewrite inorder_leaf.
+      + subst kvs. rewrite (sm_del_at cmp k KA k' v' KB Hg He), (sm_find_at cmp k KA k' v' KB Hg He).
+        auto.
+      + subst kvs.
+        pose proof (sm_del_mid cmp k KA [] KB Hg Hl) as Hp.
+        pose proof (sm_find_mid cmp k KA [] KB Hg Hl) as Hf. cbn [app] in Hp, Hf.
+        rewrite Hp, Hf. auto.
+    - pose proof Hs as Hs0. pose proof (shaped_cs _ _ _ _ _ _ Hs) as Hcs.
+      apply shaped_S_inv in Hs. destruct Hs as (Hlen & Hlc & F).
+      specialize (Hne ltac:(lia)). nk.
+      pose proof (del_spec_holds cmp kzero vzero minKVs id kvs cs k Hcs) as HS.
+      remember (del (Node id kvs cs) k) as res eqn:Eres. clear Eres.
+      unfold SMap.sm_contains.
+      destruct HS as [KA k' v' KB Hc Hk Hg He
+                     |KA KB Hc Hk Hg Hl
+                     |KA k' v' KB A c B c' kv Hk Hc HlA HlB Hg He Hr
+                     |KA KB A c B c' Hk Hc HlA HlB Hg Hl Hd
+                     |KA KB A c B c' Hk Hc HlA HlB Hg Hl Hd];
+        try (subst cs; discriminate); cbn [fst snd].
+      + (* found at a separator: the predecessor replaces it *)
+        subst kvs cs. apply Forall_app in F. destruct F as [FA F].
+        inversion F as [|? ? [Hcm Hcs'] FB]; subst.
+        destruct B as [|b0 B']; [discriminate|]. cbn [length] in HlB.
+        pose proof (rr_inorder d c Hcs' ltac:(lia)) as Hc'.
+        pose proof (rr_shaped kzero vzero minKVs maxKVs Hmin Hmax d c Hcs' ltac:(lia)) as Hsh.
+        unfold rr_shape in Hsh. rewrite Hr in Hc', Hsh. cbn [fst snd] in Hc', Hsh.
+        destruct Hsh as [Hsh1 Hsh2].
+        rewrite !app_length in *. cbn [length] in *.
+        rewrite (fix_inorder d id (KA ++ kv :: KB) A c' (b0 :: B')); auto;
+          [|rewrite !app_length; cbn [length]; lia|rewrite !app_length; cbn [length]; lia].
+        rewrite !inorder_two in * by lia.
+        rewrite Hc' in *.
+        set (P := ileft (map inorder A) KA) in *.
+        set (Q := inorder b0 ++ iright KB (map inorder B')) in *.
+        assert (E : P ++ (inorder c' ++ [kv]) ++ (k', v') :: Q =
+                    (P ++ inorder c' ++ [kv]) ++ (k', v') :: Q)
+          by (rewrite <- !app_assoc; reflexivity).
+        rewrite E in *.
+        pose proof (found_pre _ k' v' Q k Hso He) as Hgp.
+        rewrite (sm_del_at cmp k _ k' v' Q Hgp He), (sm_find_at cmp k _ k' v' Q Hgp He).
+        rewrite <- !app_assoc. auto.
+      + (* removed below *)
+        subst kvs cs.
+        destruct (node_mid id KA KB A c B k HlA HlB Hso Hg Hl) as (Hio & Hgp & Hlp & Hsc).
+        apply Forall_app in F. destruct F as [FA F]. inversion F as [|? ? [Hcm Hcs'] FB]; subst.
+        destruct (IH c k Hcs' ltac:(intros _; lia) Hsc) as [I1 I2].
+        pose proof (del_shaped cmp kzero vzero minKVs maxKVs Hmin Hmax d c k Hcs'
+                      ltac:(intros _; lia)) as Hsh.
+        unfold del_shape in Hsh. rewrite Hd in I1, I2, Hsh. cbn [fst snd] in I1, I2, Hsh.
+        destruct Hsh as [Hsh1 Hsh2].
+        rewrite !app_length in *. cbn [length] in *.
+        rewrite (fix_inorder d id (KA ++ KB) A c' B); auto;
+          [|rewrite !app_length; cbn [length]; lia|rewrite !app_length; lia].
+        rewrite Hio, inorder_one by assumption. unfold SMap.sm_contains in I2.
+        rewrite (sm_del_mid cmp k _ _ _ Hgp Hlp), (sm_find_mid cmp k _ _ _ Hgp Hlp).
+        rewrite I1. auto.
+      + (* not found *)
+        subst kvs cs.
+        destruct (node_mid id KA KB A c B k HlA HlB Hso Hg Hl) as (Hio & Hgp & Hlp & Hsc).
+        apply Forall_app in F. destruct F as [FA F]. inversion F as [|? ? [Hcm Hcs'] FB]; subst.
+        destruct (IH c k Hcs' ltac:(intros _; lia) Hsc) as [I1 I2].
+        rewrite Hd in I1, I2. cbn [fst snd] in I1, I2.
+        rewrite Hio. unfold SMap.sm_contains in I2.
+        rewrite (sm_del_mid cmp k _ _ _ Hgp Hlp), (sm_find_mid cmp k _ _ _ Hgp Hlp).
+        rewrite (sm_del_absent (inorder c) k); [auto|].
+        unfold SMap.sm_contains. symmetry. exact I2.
+  Qed.
+
 End Inorder.
